@@ -85,6 +85,14 @@ LoopConforms(e) ==
   /\ e.lc = LoopCur
   /\ cfg.alg.t # "any" => e.lo \in LoopOutSet(cfg.alg, loop, e.lt, e.lc, e.dt)
 
+\* The Prometheus collectors (internal/statistics) are observations of the modelled state: a scrape
+\* right after the cycle shows the controller's counters and the fan's PWM register.
+MetricsConform(e) ==
+  e.metrics.n = 0 \/ ( /\ e.metrics.unexpected = e.unexpected
+                       /\ e.metrics.raises = e.offset
+                       /\ e.metrics.offset = e.offset
+                       /\ e.metrics.pwm = e.pwm )
+
 StepCycle(e) ==
   LET raised == e.offset > offset
       t      == IF e.err THEN last ELSE IF raised THEN e.req - 1 ELSE e.req
@@ -105,6 +113,7 @@ StepCycle(e) ==
   /\ HCycle /\ H4Cycle
   \* conformance: is (this state, the observed next state) a step of the specification?
   /\ drift' = Note(/\ avg = AvgOf(e.avgm)
+                   /\ MetricsConform(e)
                    /\ LoopConforms(e)
                    /\ e.nw <= 1
                    /\ e.raises = e.offset
